@@ -1,1 +1,627 @@
-// harness module for C10 (not written yet)
+// Verification harness for C10 (GR/LLGR helper: stale routes live only while a timer or an
+// End-of-RIB is pending), compiled into rustybgpd's unit-test binary only with
+// `--cfg osrg_rustybgp_verif` and `--cfg verif_c10` (or verif_all).  Grand-child of `crate::event`,
+// so it reaches `PeerContext`, `PeerSession::{new_for_test, process_effects, finish_session}`,
+// `apply_disconnect`, `GlobalEffect`, `DisconnectInfo`.
+//
+// Case syntax: lean/Rbgp/Gr/Helper/Codec.lean.
+//   (glue ev ...)  one peer, a REAL `Global` (the peer added with `add_peer`), its REAL `PeerContext`,
+//                  a REAL `TableManager`; every event calls the real glue function; timers are
+//                  observed as "slot holds a sender whose task is still alive" and fired by sending
+//                  on the oneshot (the code's own `fire_gr_timer` path), so no real time passes.
+//   (pure in ...)  the pure `GrState` machine: outputs and `is_peer_restarting` per input.
+#![allow(dead_code, unused_imports)]
+
+use super::super::*;
+
+#[path = "/verif/harness/common/sexp.rs"]
+mod sexp;
+use sexp::Term;
+
+const MAX_FAM: u64 = 3;
+const MAX_PFX: u64 = 3;
+
+fn fam_of(i: u64) -> Family {
+    match i {
+        0 => Family::IPV4,
+        1 => Family::IPV6,
+        _ => Family::IPV4_MC,
+    }
+}
+fn fam_idx(f: Family) -> u64 {
+    if f == Family::IPV4 {
+        0
+    } else if f == Family::IPV6 {
+        1
+    } else if f == Family::IPV4_MC {
+        2
+    } else {
+        99
+    }
+}
+fn net_of(f: u64, n: u64) -> packet::Nlri {
+    if f == 1 {
+        format!("2001:db8:{}::/48", n + 1).parse().unwrap()
+    } else {
+        format!("10.{}.0.0/16", n + 1).parse().unwrap()
+    }
+}
+fn pfx_idx(net: &packet::Nlri) -> u64 {
+    let s = net.to_string();
+    for n in 0..MAX_PFX {
+        if s == format!("2001:db8:{}::/48", n + 1) || s == format!("10.{}.0.0/16", n + 1) {
+            return n;
+        }
+    }
+    99
+}
+fn small(t: &Term, max: u64) -> Option<u64> {
+    let n = t.as_u64()?;
+    if n < max { Some(n) } else { None }
+}
+fn fams_of(t: &Term) -> Option<Vec<u64>> {
+    t.as_list()?.iter().map(|x| small(x, MAX_FAM)).collect()
+}
+fn fams_ne_of(t: &Term) -> Option<Vec<u64>> {
+    // negotiated family lists are never empty (negotiate_gr / negotiate_llgr return None then)
+    let v = fams_of(t)?;
+    if v.is_empty() { None } else { Some(v) }
+}
+fn opt_of<'a>(t: &'a Term) -> Option<Option<&'a Term>> {
+    if t.as_atom() == Some("none") {
+        return Some(None);
+    }
+    let s = t.tagged("some")?;
+    if s.len() == 1 { Some(Some(&s[0])) } else { None }
+}
+
+#[derive(Clone)]
+enum Reason {
+    Io,
+    Hold,
+    Remote(u8, u8),
+    Local(u8, u8),
+    Fsm,
+    Admin,
+}
+
+enum Ev {
+    Est {
+        fams: Vec<u64>,
+        gr: Option<(Vec<u64>, bool)>,
+        llgr: Option<Vec<u64>>,
+        lr: bool,
+    },
+    Ann(u64, u64, bool, bool),
+    Eor(u64),
+    Down(Reason),
+    Attempt,
+    GrTimer,
+    LlgrTimer(u64),
+    Force,
+    Disable,
+    Enable,
+}
+
+fn reason_of(t: &Term) -> Option<Reason> {
+    match t.as_atom() {
+        Some("io") => return Some(Reason::Io),
+        Some("hold") => return Some(Reason::Hold),
+        Some("fsm") => return Some(Reason::Fsm),
+        Some("admin") => return Some(Reason::Admin),
+        Some(_) => return None,
+        None => {}
+    }
+    let l = t.as_list()?;
+    if l.len() != 3 {
+        return None;
+    }
+    let c = small(&l[1], 8)? as u8;
+    let s = small(&l[2], 12)? as u8;
+    match l[0].as_atom()? {
+        "rnotif" => Some(Reason::Remote(c, s)),
+        "lnotif" => Some(Reason::Local(c, s)),
+        _ => None,
+    }
+}
+
+fn ev_of(t: &Term) -> Option<Ev> {
+    match t.as_atom() {
+        Some("attempt") => return Some(Ev::Attempt),
+        Some("gr-timer") => return Some(Ev::GrTimer),
+        Some("force") => return Some(Ev::Force),
+        Some("disable") => return Some(Ev::Disable),
+        Some("enable") => return Some(Ev::Enable),
+        Some(_) => return None,
+        None => {}
+    }
+    let l = t.as_list()?;
+    let h = l.first()?.as_atom()?;
+    match (h, l.len()) {
+        ("est", 5) => {
+            let gr = match opt_of(&l[2])? {
+                None => None,
+                Some(g) => {
+                    let g = g.as_list()?;
+                    if g.len() != 2 {
+                        return None;
+                    }
+                    Some((fams_ne_of(&g[0])?, g[1].as_bool()?))
+                }
+            };
+            let llgr = match opt_of(&l[3])? {
+                None => None,
+                Some(g) => Some(fams_ne_of(g)?),
+            };
+            let fams = fams_of(&l[1])?;
+            // negotiated GR / LLGR families are families of the session
+            if !gr.iter().all(|(g, _)| g.iter().all(|f| fams.contains(f)))
+                || !llgr.iter().all(|g| g.iter().all(|f| fams.contains(f)))
+            {
+                return None;
+            }
+            Some(Ev::Est {
+                fams,
+                gr,
+                llgr,
+                lr: l[4].as_bool()?,
+            })
+        }
+        ("ann", 5) => Some(Ev::Ann(
+            small(&l[1], MAX_FAM)?,
+            small(&l[2], MAX_PFX)?,
+            l[3].as_bool()?,
+            l[4].as_bool()?,
+        )),
+        ("eor", 2) => Some(Ev::Eor(small(&l[1], MAX_FAM)?)),
+        ("down", 2) => Some(Ev::Down(reason_of(&l[1])?)),
+        ("llgr-timer", 2) => Some(Ev::LlgrTimer(small(&l[1], MAX_FAM)?)),
+        _ => None,
+    }
+}
+
+fn notification(c: u8, s: u8) -> bgp::Message {
+    bgp::Message::Notification(rustybgp_packet::Notification::from_notification(c, s, vec![]))
+}
+
+fn down_reason(r: &Reason) -> crate::fsm::SessionDownReason {
+    use crate::fsm::SessionDownReason as R;
+    match r {
+        Reason::Io => R::IoError,
+        Reason::Hold => R::HoldTimerExpired,
+        Reason::Remote(c, s) => R::RemoteNotification(notification(*c, *s)),
+        Reason::Local(c, s) => R::LocalNotification(notification(*c, *s)),
+        Reason::Fsm => R::FsmError,
+        Reason::Admin => R::AdminShutdown,
+    }
+}
+
+struct World {
+    global: GlobalHandle,
+    tables: TableHandle,
+    addr: IpAddr,
+    context: Arc<std::sync::Mutex<PeerContext>>,
+    session: Option<PeerSession>,
+}
+
+fn peer_params(remote_addr: IpAddr) -> PeerParams {
+    PeerParams {
+        remote_addr,
+        remote_port: Global::BGP_PORT,
+        expected_remote_asn: 0,
+        local_asn: 0,
+        passive: true,
+        rs_client: false,
+        route_reflector: RouteReflectorConfig::default(),
+        delete_on_disconnected: false,
+        admin_down: false,
+        state: SessionState::Idle,
+        holdtime: PeerParams::DEFAULT_HOLD_TIME,
+        connect_retry_time: PeerParams::DEFAULT_CONNECT_RETRY_TIME,
+        multihop_ttl: None,
+        ttl_security: None,
+        password: None,
+        families: FnvHashMap::default(),
+        send_max: FnvHashMap::default(),
+        prefix_limits: FnvHashMap::default(),
+        graceful_restart: None,
+        llgr: None,
+        bfd_config: None,
+        neighbor_interface: None,
+        bind_interface: None,
+        export_policy: None,
+    }
+}
+
+async fn settle() {
+    // let the timer tasks woken by a `send` run to completion (they never await anything that is
+    // not immediately ready: std mutexes and synchronous table calls only)
+    for _ in 0..8 {
+        tokio::task::yield_now().await;
+    }
+}
+
+fn gr_armed(ctx: &PeerContext) -> bool {
+    ctx.gr_restart_timer.as_ref().is_some_and(|tx| !tx.is_closed())
+}
+fn llgr_armed(ctx: &PeerContext) -> Vec<u64> {
+    let mut v: Vec<u64> = ctx
+        .llgr_family_timers
+        .iter()
+        .filter(|(_, tx)| !tx.is_closed())
+        .map(|(f, _)| fam_idx(*f))
+        .collect();
+    v.sort_unstable();
+    v
+}
+
+fn observe(w: &World) -> Term {
+    let mut routes: Vec<(u64, u64, bool, bool, bool, bool)> = Vec::new();
+    for f in 0..MAX_FAM {
+        for d in w
+            .tables
+            .collect_paths(table::TableQuery::AdjIn(w.addr), fam_of(f), vec![], true)
+        {
+            for p in &d.paths {
+                let comms: Vec<u32> = p
+                    .attr
+                    .iter()
+                    .find(|a| a.code() == packet::Attribute::COMMUNITY)
+                    .and_then(|a| a.binary())
+                    .map(|b| {
+                        b.chunks(4)
+                            .filter_map(|c| c.try_into().ok().map(u32::from_be_bytes))
+                            .collect()
+                    })
+                    .unwrap_or_default();
+                routes.push((
+                    f,
+                    pfx_idx(&d.net),
+                    p.source.is_stale(),
+                    p.source.is_llgr_stale(),
+                    comms.contains(&0xffff_0007),
+                    comms.contains(&0xffff_0006),
+                ));
+            }
+        }
+    }
+    routes.sort();
+    let ctx = w.context.lock().unwrap();
+    Term::list(vec![
+        Term::tag(
+            "rib",
+            routes
+                .into_iter()
+                .map(|(f, n, s, l, nl, lc)| {
+                    Term::list(vec![
+                        Term::nat(f),
+                        Term::nat(n),
+                        Term::boolean(s),
+                        Term::boolean(l),
+                        Term::boolean(nl),
+                        Term::boolean(lc),
+                    ])
+                })
+                .collect(),
+        ),
+        Term::boolean(gr_armed(&ctx)),
+        Term::tag("llt", llgr_armed(&ctx).into_iter().map(Term::nat).collect()),
+        Term::boolean(ctx.gr_state.is_peer_restarting()),
+        Term::boolean(w.session.is_some()),
+    ])
+}
+
+/// The end of an established session: the REAL `PeerSession::finish_session` (eligibility,
+/// admin-down override, `unregister_peer`) followed by the REAL `apply_disconnect`, in the order
+/// `session_loop` / `run` call them.
+async fn session_down(w: &mut World, reason: &Reason) {
+    let Some(mut s) = w.session.take() else {
+        return;
+    };
+    let disconnect = DisconnectInfo {
+        role: s.role,
+        remote_addr: s.remote_addr,
+        export_map: ExportMap::default(),
+        negotiated_gr: None,
+        negotiated_llgr: None,
+    };
+    let info = s
+        .finish_session(down_reason(reason), &w.global, disconnect)
+        .await;
+    let _ = apply_disconnect(&w.context, w.addr, &w.tables, info).await;
+}
+
+async fn force_down(w: &mut World) {
+    // `force_down` wakes the timer tasks; a live session is told to close and terminates with
+    // SessionDownReason::AdminShutdown (run_select maps every CloseReason to it).
+    w.context
+        .lock()
+        .unwrap()
+        .force_down(CloseReason::AdminShutdown, false);
+    settle().await;
+    session_down(w, &Reason::Admin).await;
+}
+
+async fn run_glue(evs: Vec<Ev>) -> String {
+    let (tx, _rx) = mpsc::unbounded_channel();
+    let (bfd_tx, _bfd_rx) = mpsc::unbounded_channel();
+    let mut g = Global::new(tx, bfd_tx);
+    g.asn = 65001;
+    g.router_id = Ipv4Addr::new(1, 0, 0, 1);
+    let addr: IpAddr = "10.0.0.2".parse().unwrap();
+    g.add_peer(peer_params(addr), None).unwrap();
+    let context = Arc::clone(&g.peers.get(&addr).unwrap().context);
+    let global: GlobalHandle = Arc::new(tokio::sync::RwLock::new(g));
+    let mut w = World {
+        global,
+        tables: Arc::new(TableManager::new(2)),
+        addr,
+        context,
+        session: None,
+    };
+    let mut steps = Vec::new();
+    for ev in evs {
+        match ev {
+            Ev::Est { fams, gr, llgr, lr } => {
+                if w.session.is_none() {
+                    let mut s =
+                        PeerSession::new_for_test(w.addr, w.context.clone(), w.tables.clone());
+                    for f in &fams {
+                        s.source.entry(fam_of(*f)).or_insert_with(|| {
+                            Arc::new(table::Source::new(
+                                w.addr,
+                                "127.0.0.1".parse().unwrap(),
+                                65002,
+                                65001,
+                                Ipv4Addr::new(10, 0, 0, 2),
+                                PeerRole::Ebgp,
+                            ))
+                        });
+                    }
+                    s.negotiated_gr = gr.map(|(fs, nbit)| NegotiatedGr {
+                        families: fs.iter().map(|f| fam_of(*f)).collect(),
+                        restart_time: Duration::from_secs(3600),
+                        notification_enabled: nbit,
+                    });
+                    s.negotiated_llgr = llgr.map(|fs| NegotiatedLlgr {
+                        families: fs
+                            .iter()
+                            .map(|f| (fam_of(*f), Duration::from_secs(7200)))
+                            .collect(),
+                    });
+                    // local speaker itself in selection deferral?
+                    w.global.write().await.selection_deferral = if lr {
+                        let mut m: FnvHashMap<IpAddr, Vec<Family>> = FnvHashMap::default();
+                        m.insert("10.0.0.99".parse().unwrap(), vec![Family::IPV4]);
+                        Some(crate::gr::RestartingDeferral::new(m, None).0)
+                    } else {
+                        None
+                    };
+                    let negotiated_gr = s.negotiated_gr.clone();
+                    s.process_effects(
+                        vec![GlobalEffect::GrSessionEstablished { negotiated_gr }],
+                        &w.global,
+                    )
+                    .await;
+                    w.global.write().await.selection_deferral = None;
+                    w.session = Some(s);
+                }
+            }
+            Ev::Ann(f, n, nl, lc) => {
+                if let Some(s) = &w.session
+                    && let Some(src) = s.source.get(&fam_of(f))
+                {
+                    let mut comm: Vec<u8> = Vec::new();
+                    if nl {
+                        comm.extend_from_slice(&0xffff_0007u32.to_be_bytes());
+                    }
+                    if lc {
+                        comm.extend_from_slice(&0xffff_0006u32.to_be_bytes());
+                    }
+                    let mut attrs = Vec::new();
+                    if !comm.is_empty() {
+                        attrs.push(
+                            packet::Attribute::new_with_bin(packet::Attribute::COMMUNITY, comm)
+                                .unwrap(),
+                        );
+                    }
+                    w.tables.insert_route(
+                        src.clone(),
+                        fam_of(f),
+                        packet::PathNlri::new(net_of(f, n)),
+                        Some(bgp::Nexthop::V4(Ipv4Addr::new(10, 0, 0, 2))),
+                        Arc::new(attrs),
+                        None,
+                        0,
+                    );
+                }
+            }
+            Ev::Eor(f) => {
+                // handle_message: `if self.negotiated_gr.is_some() { process_effects(GrEorReceived) }`
+                if let Some(s) = &mut w.session
+                    && s.negotiated_gr.is_some()
+                {
+                    s.process_effects(
+                        vec![GlobalEffect::GrEorReceived { family: fam_of(f) }],
+                        &w.global,
+                    )
+                    .await;
+                }
+            }
+            Ev::Down(r) => session_down(&mut w, &r).await,
+            Ev::Attempt => {
+                let info = DisconnectInfo {
+                    role: crate::fsm::Role::Active,
+                    remote_addr: w.addr,
+                    export_map: ExportMap::default(),
+                    negotiated_gr: None,
+                    negotiated_llgr: None,
+                };
+                let _ = apply_disconnect(&w.context, w.addr, &w.tables, info).await;
+            }
+            Ev::GrTimer => {
+                // the timer fires: same wake-up as `fire_gr_timer`
+                let armed = gr_armed(&w.context.lock().unwrap());
+                if armed {
+                    w.context.lock().unwrap().fire_gr_timer();
+                    settle().await;
+                }
+            }
+            Ev::LlgrTimer(f) => {
+                let tx = {
+                    let mut ctx = w.context.lock().unwrap();
+                    if ctx
+                        .llgr_family_timers
+                        .get(&fam_of(f))
+                        .is_some_and(|tx| !tx.is_closed())
+                    {
+                        ctx.llgr_family_timers.remove(&fam_of(f))
+                    } else {
+                        None
+                    }
+                };
+                if let Some(tx) = tx {
+                    let _ = tx.send(());
+                    settle().await;
+                }
+            }
+            Ev::Force => force_down(&mut w).await,
+            Ev::Disable => {
+                let was = {
+                    let mut g = w.global.write().await;
+                    let p = g.peers.get_mut(&w.addr).unwrap();
+                    let was = p.admin_down;
+                    p.admin_down = true;
+                    was
+                };
+                if !was {
+                    force_down(&mut w).await;
+                }
+            }
+            Ev::Enable => {
+                w.global
+                    .write()
+                    .await
+                    .peers
+                    .get_mut(&w.addr)
+                    .unwrap()
+                    .admin_down = false;
+            }
+        }
+        steps.push(observe(&w));
+    }
+    Term::tag("trace", steps).to_string()
+}
+
+// ---- pure machine ---------------------------------------------------------------------------
+
+fn fam_list_t(fs: &[Family]) -> Term {
+    let mut v: Vec<u64> = fs.iter().map(|f| fam_idx(*f)).collect();
+    v.sort_unstable();
+    Term::list(v.into_iter().map(Term::nat).collect())
+}
+
+fn gout_t(o: &crate::gr::GrOutput) -> Term {
+    use crate::gr::GrOutput as O;
+    match o {
+        O::StartTimer(_) => Term::atom("start-timer"),
+        O::StopTimer => Term::atom("stop-timer"),
+        O::DeleteStaleRoutes(fs) => Term::tag("del-stale", vec![fam_list_t(fs)]),
+        O::StartLlgrTimers(fs) => {
+            let fs: Vec<Family> = fs.iter().map(|(f, _)| *f).collect();
+            Term::tag("start-llgr", vec![fam_list_t(&fs)])
+        }
+        O::StopLlgrTimers => Term::atom("stop-llgr"),
+        O::DeleteLlgrStaleRoutes(fs) => Term::tag("del-llgr", vec![fam_list_t(fs)]),
+    }
+}
+
+fn opt_fams(t: &Term) -> Option<Option<Vec<Family>>> {
+    Some(match opt_of(t)? {
+        None => None,
+        Some(x) => Some(fams_of(x)?.into_iter().map(fam_of).collect()),
+    })
+}
+
+fn gin_of(t: &Term) -> Option<crate::gr::GrInput> {
+    use crate::gr::GrInput as I;
+    if t.as_atom() == Some("timer") {
+        return Some(I::TimerExpired);
+    }
+    let l = t.as_list()?;
+    match (l.first()?.as_atom()?, l.len()) {
+        ("dropped", 3) => Some(I::SessionDropped {
+            gr: opt_fams(&l[1])?.map(|families| crate::gr::GrParams {
+                families,
+                restart_time: Duration::from_secs(90),
+            }),
+            llgr: opt_fams(&l[2])?.map(|fs| crate::gr::LlgrParams {
+                families: fs
+                    .into_iter()
+                    .map(|f| (f, Duration::from_secs(600)))
+                    .collect(),
+            }),
+        }),
+        ("established", 2) => Some(I::SessionEstablished {
+            gr_families: fams_of(&l[1])?.into_iter().map(fam_of).collect(),
+        }),
+        ("eor", 2) => Some(I::EorReceived(fam_of(small(&l[1], MAX_FAM)?))),
+        ("llgr-timer", 2) => Some(I::LlgrTimerExpired(fam_of(small(&l[1], MAX_FAM)?))),
+        _ => None,
+    }
+}
+
+fn run_pure(ins: Vec<crate::gr::GrInput>) -> String {
+    let mut m = crate::gr::GrState::new();
+    let mut steps = Vec::new();
+    for i in ins {
+        let outs = m.process(i);
+        steps.push(Term::list(vec![
+            Term::list(outs.iter().map(gout_t).collect()),
+            Term::boolean(m.is_peer_restarting()),
+        ]));
+    }
+    Term::tag("ptrace", steps).to_string()
+}
+
+fn run_case(line: &str) -> String {
+    let Some(t) = Term::parse(line) else {
+        return "(bad-case)".into();
+    };
+    if let Some(evs) = t.tagged("glue") {
+        let Some(evs) = evs.iter().map(ev_of).collect::<Option<Vec<_>>>() else {
+            return "(bad-case)".into();
+        };
+        let rt = tokio::runtime::Builder::new_current_thread()
+            .enable_time()
+            .build()
+            .unwrap();
+        rt.block_on(run_glue(evs))
+    } else if let Some(ins) = t.tagged("pure") {
+        let Some(ins) = ins.iter().map(gin_of).collect::<Option<Vec<_>>>() else {
+            return "(bad-case)".into();
+        };
+        run_pure(ins)
+    } else {
+        "(bad-case)".into()
+    }
+}
+
+#[test]
+fn verif_main() {
+    let (Ok(prop), Ok(inp), Ok(out)) = (
+        std::env::var("VERIF_PROP"),
+        std::env::var("VERIF_IN"),
+        std::env::var("VERIF_OUT"),
+    ) else {
+        return; // not invoked by /verif/check
+    };
+    if prop != "C10" {
+        return;
+    }
+    std::panic::set_hook(Box::new(|_| {}));
+    sexp::run_lines(&inp, &out, |l| {
+        let l = l.to_string();
+        std::panic::catch_unwind(move || run_case(&l)).unwrap_or_else(|_| "(panic)".into())
+    });
+}
